@@ -266,7 +266,7 @@ class SimRun(Engine):
         ids = ["s0"]
         ops = []
         insts = [(a["name"], p) for a in world["actions"] for p in rs.ground_instances(a["name"])]
-        nops = ro.randint(15, 60)
+        nops = ro.randint(15, 60) * (stream(seed, "size").choice([1, 1, 1, 2, 3]) if tier == "thorough" else 1)
         asked = []
         pending_after_failure = 0
         while len(ops) < nops:
